@@ -25,6 +25,10 @@ from pathlib import Path
 ROOT = Path(__file__).resolve().parent.parent
 REPO = Path(os.environ.get("VERIF_REPO", "/repo"))
 BUILD = ROOT / "build"
+# harness executables depend on the checkout they were compiled against: a run against another checkout
+# (VERIF_REPO=<scratch worktree>, used to test the checks against seeded changes) gets its own directory so
+# that it never evicts the executables of a concurrent run against /repo
+HBUILD = BUILD if REPO == Path("/repo") else BUILD / ("alt-" + hashlib.md5(str(REPO).encode()).hexdigest()[:8])
 COQ = ROOT / "coq"
 EVID = Path(os.environ.get("VERIF_EVIDENCE_DIR", str(ROOT / "evidence")))   # overridden when checking a seeded mutation
 REPLAY = Path(os.environ.get("VERIF_REPLAY_DIR", str(ROOT / "replay")))
@@ -142,7 +146,7 @@ def coq_assumptions_file(pid, src):
         if b.startswith("Closed under"):
             res.append({"theorem": n, "axioms": [], "ok": True})
         else:
-            ax = re.findall(r"^([A-Za-z_][\w.']*)\s*:", b, flags=re.M)
+            ax = [a for a in re.findall(r"^([A-Za-z_][\w.']*)\s*:", b, flags=re.M) if a != "Axioms"]  # not the header line
             bad = [a for a in ax if a not in ALLOWED_AXIOMS and a.split(".")[-1] not in ALLOWED_AXIOMS]
             res.append({"theorem": n, "axioms": ax, "ok": not bad, "disallowed": bad})
     return res, out + err, True
@@ -233,7 +237,7 @@ def build_harness(pid, name, src, flags, compiler="g++"):
     deps = [srcp, ROOT / "harness" / "common.hpp"] + sorted((ROOT / "harness").glob("*.hpp"))
     deps += sorted((ROOT / "props" / pid).glob("*.hpp")) + sorted((ROOT / "props" / pid).glob("*.inc"))
     key = file_hash(deps, extra=include_hash() + " ".join(flags) + compiler)
-    outdir = BUILD / pid
+    outdir = HBUILD / pid
     outdir.mkdir(parents=True, exist_ok=True)
     exe = outdir / f"h-{name}-{key}"
     if exe.exists():
